@@ -194,3 +194,34 @@ def _xer_cr(ctx):
         return False
     from . import jsonio
     return any('\r' in s for s in _strings(jsonio.dec(ctx.case.get('value'))))
+
+
+@finding(BINARY + ('C02',), 'named-bits-default-size')
+def _named_bits_default_size(ctx):
+    # constraints_checker.py BitString: a named-bit BIT STRING DEFAULT { names } shorter than the SIZE
+    # lower bound is returned by decoders as-is and then rejected by check_constraints
+    for n in ctx.tnodes():
+        m = n.member
+        if m is None or not m.has_default or n.r.base.kind != 'BIT STRING' or not n.r.base.named_bits:
+            continue
+        if n.r.size is None or n.r.size.ext or not (m.default_txt or '').startswith('{'):
+            continue
+        names = [x.strip() for x in m.default_txt.strip('{} ').split(',') if x.strip()]
+        nb = dict(n.r.base.named_bits)
+        need = max([nb[x] for x in names] + [-1]) + 1
+        if n.r.size.lo is not None and need < n.r.size.lo:
+            return True
+    return False
+
+
+@finding(BINARY, 'per-from-overlap')
+def _per_from_overlap(ctx):
+    # per.py get_permitted_alphabet: overlapping FROM items are counted twice
+    if ctx.codec not in ('per', 'uper'):
+        return False
+    for n in ctx.tnodes():
+        if n.r.alpha is not None:
+            total = sum(ord(b) - ord(a) + 1 for a, b in n.r.alpha.items)
+            if total != len(n.r.alpha.chars()):
+                return True
+    return False
